@@ -281,6 +281,10 @@ def _get_path(grid, obj, paths):
                     # Only references can be followed
                     return NOT_FOUND
                 obj = grid[obj.name]  # Follow the reference
+        if obj is None:
+            # A null cell (the ZINC reader stores one for every empty
+            # cell): the entity does not have the tag.
+            return NOT_FOUND
         return obj  # It's a value at this time
     except KeyError:
         return NOT_FOUND
